@@ -756,6 +756,10 @@ def _callee_of(mod: Module, cls: Optional[str], call: ast.Call):
             return d, (0 if "staticmethod" in decos else 1)
     if isinstance(f, ast.Name) and f.id.startswith("_"):
         d = mod.functions.get(f.id)
+        if d is None:
+            for q, cand in mod.functions.items():          # a helper nested in the function being analysed (or in its class method)
+                if q.endswith("." + f.id) and cand.name == f.id:
+                    d = cand
         if d is not None and not d.decorator_list:
             return d, 0
     return None
@@ -779,6 +783,13 @@ def inline_helpers(mod: Module, func: ast.FunctionDef, depth: int = 2, only_priv
             return False
         if len(rets) == 1 and d.body and d.body[-1] is rets[0]:
             return True
+        # `with ...: return X` as the last statement: the return is the tail of the trailing with-block(s)
+        if len(rets) == 1 and d.body:
+            cur = d.body[-1]
+            while isinstance(cur, ast.With) and cur.body:
+                if cur.body[-1] is rets[0]:
+                    return True
+                cur = cur.body[-1]
         if all(r.value is None for r in rets):
             return None          # early exits: not inlined
         return None
@@ -844,14 +855,18 @@ def inline_helpers(mod: Module, func: ast.FunctionDef, depth: int = 2, only_priv
                 return n
         body = [R().visit(st) for st in body]
         if sr is True:
-            ret = body[-1]
-            body = body[:-1]
+            # locate the (single) trailing return, possibly inside trailing with-blocks, and turn it into the requested statement in place
+            holder, cur = body, body[-1]
+            while isinstance(cur, ast.With):
+                holder, cur = cur.body, cur.body[-1]
+            ret = cur
             if kind == "assign":
-                body.append(ast.copy_location(ast.Assign(targets=[target], value=ret.value), call))
+                repl = ast.copy_location(ast.Assign(targets=[target], value=ret.value), call)
             elif kind == "return":
-                body.append(ast.copy_location(ast.Return(value=ret.value), call))
+                repl = ast.copy_location(ast.Return(value=ret.value), call)
             else:
-                body.append(ast.copy_location(ast.Expr(value=ret.value), call))
+                repl = ast.copy_location(ast.Expr(value=ret.value), call)
+            holder[-1] = repl
         for st in pre + body:
             ast.fix_missing_locations(st)
         # position: every inlined node sits at the CALL SITE's line (so that line-order comparisons with the caller's statements stay meaningful);
@@ -869,9 +884,39 @@ def inline_helpers(mod: Module, func: ast.FunctionDef, depth: int = 2, only_priv
         return pre + body
 
 
+    def hoist(st: ast.stmt) -> List[ast.stmt]:
+        """`y = g(_helper(a))` -> `t = _helper(a); y = g(t)` for private helpers with one trailing return (evaluation order is kept:
+        only the FIRST such inner call of a statement is hoisted, and only when nothing but names/constants/attributes precedes it)"""
+        val = getattr(st, "value", None)
+        if not isinstance(st, (ast.Assign, ast.Expr, ast.Return, ast.AnnAssign)) or val is None:
+            return [st]
+        for c in ast.walk(val):
+            if c is val or not isinstance(c, ast.Call):
+                continue
+            res_ = _callee_of(mod, cls, c)
+            if res_ is None or not res_[0].name.startswith("_") or simple_returns(res_[0]) is not True:
+                continue
+            _inl_counter[0] += 1
+            tmp = f"__hoist{_inl_counter[0]}"
+
+            class Rp(ast.NodeTransformer):
+                def visit_Call(self, n):
+                    if n is c:
+                        return ast.copy_location(ast.Name(id=tmp, ctx=ast.Load()), n)
+                    return self.generic_visit(n)
+            pre = ast.copy_location(ast.Assign(targets=[ast.Name(id=tmp, ctx=ast.Store())], value=c), st)
+            st.value = Rp().visit(val)
+            ast.fix_missing_locations(pre)
+            ast.fix_missing_locations(st)
+            return [pre, st]
+        return [st]
+
     def rewrite(stmts: List[ast.stmt], d: int) -> List[ast.stmt]:
         res: List[ast.stmt] = []
+        hoisted: List[ast.stmt] = []
         for st in stmts:
+            hoisted.extend(hoist(st) if d > 0 else [st])
+        for st in hoisted:
             new = None
             if d > 0:
                 if isinstance(st, ast.Expr) and isinstance(st.value, ast.Call):
